@@ -282,7 +282,11 @@ def splice_unit(u, scratch, probes, wdir):
                 m = re.match(r"^\s*(\w+)\s*:\s*(.*)$", l)
                 if m:
                     spec[m.group(1)] = m.group(2)
-            body = vsplice.extract_statement(text, spec["from"], spec["start"])
+            nth = None
+            if "nth" in spec:
+                a, _, b2 = spec["nth"].partition("/")
+                nth = (int(a), int(b2))
+            body = vsplice.extract_statement(text, spec["from"], spec["start"], nth)
             extracted.append("/* extracted verbatim from %s(): statement starting at %r */\n%s %s(%s)\n{\n%s\n%s\n%s\n}\n"
                              % (spec["from"], spec["start"].replace("/*", "").replace("*/", "").strip(), spec.get("returns_type", "void"), b.args[0], spec.get("params", "void"),
                                 spec.get("locals", ""), body, spec.get("return", "")))
